@@ -27,7 +27,8 @@ def handle (j : Json) : Except String Json := do
   let mut tags : Array Json := #[]
   -- the hypotheses of Rio.C03.chain_chunk_invariant_partial, evaluated on the tokenizer model
   let plain := chain.items.all fun st => st.kind == "html" || st.kind == "text"
-  if plain && !chain.items.isEmpty then
+  if plain && !chain.items.isEmpty && body.length > 16384 then tags := tags.push (toJson "sem-skipped-large-body")
+  if plain && !chain.items.isEmpty && body.length ≤ 16384 then
     let safe1 := safeGB htmlTokenize evalStandIn noCodec chain.items [body] none
     let ok1 := (runG htmlTokenize evalStandIn noCodec chain.items [body] none).isSome
     let flags := scheds.map fun cuts =>
